@@ -46,13 +46,14 @@ ALPHAS = [0.0, 0.1, 1.0, 10.0]
 TOLS = [1e-5, 1e-6, 1e-8, 1e-10, 1e-12, 1e-14]
 EPS = 2.0 ** -52
 
-# ---- oracle constants (calibration: see the report; ratios observed over VERIF_SEED=1..5 quick + one thorough run)
-C_SCORE = 100.0      # Newton decrement^2 of the returned beta  <=  C_SCORE * tol * |penalised deviance|  + rounding floor
-C_ROUND = 1.0e4      # rounding floor multiplier  (n * eps * cond)
-C_DEV = 100.0        # |reported deviance - deviance(mu(beta))| <= C_DEV * tol * |dev| + rounding floor
-C_COV = 1000.0       # relative error of covariance / standard errors vs mpmath at the returned beta
-C_PRED = 1.0e3       # predictions: relative error <= C_PRED * eps * (1 + sum |x_ij beta_j| + |off|)
-C_PERM = 1000.0
+# ---- oracle constants.  Calibration: max observed ratio (C06_STATS=1) over VERIF_SEED=1..5 quick and one thorough run:
+#      score 3.3, gauss 0.01, dev 0.94, cov 0.34, se 0.14, pred 1.25 (eps units), perm 0.26, bic 0.8 (eps units)
+C_SCORE = 400.0      # Newton decrement^2 (g^T H^-1 g, mpmath) at the returned beta <= C_SCORE * tol * penalised deviance + floor
+C_ROUND = 1.0e4      # multiplier of the double-precision rounding floors (n * eps * sum |terms|)
+C_DEV = 100.0        # |reported deviance - deviance(mu(beta))| <= C_DEV * (|grad dev|_{H^-1} * last-step bound + tol * pd) + floor
+C_COV = 1000.0       # covariance / std errors vs mpmath at the returned beta: C_COV * max_i |x_i|_{H^-1} * last-step bound + floor
+C_PRED = 1.0e3       # predictions: error <= C_PRED * eps * (1 + sum_j |x_ij beta_j| + |off_i|) (relative for exp / logistic links)
+C_PERM = 1000.0      # permuted re-run: coefficients agree to C_PERM * n * eps * cond(H) (+ twice the last-step bound)
 
 
 # ---------------------------------------------------------------- request construction
@@ -430,6 +431,15 @@ def check_fit(mp, i, line, rep, fails):
     if derr > dbound:
         fails.append(Failure(i, "deviance:" + key0, "reported deviance %r differs from the family deviance at the fitted means %r by %.3e > %.3e" % (
             r["dev"], float(A["dev"]), float(derr), float(dbound)), f2h(float(A["dev"]))))
+    # ---- 3b. (opt-in, C06_WEIGHTED_DEVIANCE=1; see the report) with prior weights the deviance that is consistent with the
+    #          weighted score equations and with n = round(sum w) is sum_i w_i d(y_i, mu_i); the source sums unweighted terms.
+    if os.environ.get("C06_WEIGHTED_DEVIANCE") and w is not None and any(v != 1.0 for v in w):
+        wdev = sum(mp.mpf(wi) * udev(mp.mpf(yy), m) for wi, yy, m in zip(w, y, A["mu"]))
+        if abs(mp.mpf(r["dev"]) - wdev) > dbound + mp.mpf("1e-6") * abs(wdev):
+            fails.append(Failure(i, "glm:weights:unweighted-deviance",
+                                 "with weights the stored deviance %r is the unweighted sum; the weighted deviance sum w_i d_i is %r "
+                                 "(dispersion = deviance/(sum w - p) and the standard errors inherit the mismatch)" % (r["dev"], float(wdev)),
+                                 f2h(float(wdev))))
     # ---- 4. dispersion = deviance / (n_w - p) for the dispersion families, 1 otherwise;  aic, bic
     from fractions import Fraction
     sw = sum(Fraction(v) for v in w) if w is not None else Fraction(n)
